@@ -78,11 +78,9 @@ type noOpCompressor struct {
 }
 
 func (c *noOpCompressor) Reset(writer io.Writer) {
-	wc, ok := writer.(io.WriteCloser)
-	if !ok {
-		wc = &noOpCloser{writer}
-	}
-	c.WriteCloser = wc
+	// Closing a compressor must not close the underlying sink, even
+	// if the sink happens to be an io.WriteCloser.
+	c.WriteCloser = &noOpCloser{writer}
 }
 
 type noOpDecompressor struct {
